@@ -107,6 +107,26 @@ def robustness_inputs(ctx, n):
     return out
 
 
+def prefix_family(ctx):
+    """Systematic truncation: EVERY token-boundary prefix of a few programs (prototype and K&R function definitions among them),
+    so that each look-ahead scan of the parser is cut at each of its positions, under the option sets that enable the scans
+    (K&R-style definitions are off by default).  Seeded change C01-b (look-ahead one token past the end-of-file token when a
+    parameter list is cut) needs exactly this; the random truncations of the sweeps hit it too rarely."""
+    rng = ctx.rng
+    progs = ["int f(a, b) int a; char *b; { return a; } int g(int (*h)(int, char), ...) { return h(1, 2); } struct s { int x : 3; } v = { .x = 1 }; void k(x, y, z) double x, y; { }",
+             "typedef int T; T (*fp[3])(T a, T (b), void (*)(void)); enum e { A = sizeof(T), B } ee; _Static_assert(1, \"m\"); void m(void) { for (int i = 0; i < 3; ++i) { T x = (T) i; x = _Generic(x, int: 1, default: 2); } }"]
+    for i in range(6 if ctx.quick else 30):
+        progs.append(Gen(random.Random(rng.randrange(1 << 30)), gnu=i % 2 == 0, kr=True).program())
+    out = []
+    for p in progs:
+        ends = [m.end() for m in re.finditer(r"[A-Za-z_0-9]+|\"[^\"]*\"|\S", p)]
+        if len(ends) > 700:
+            ends = ends[:350] + sorted(rng.sample(ends[350:], 350))
+        for e in ends:
+            out.append(p[:e].encode())
+    return out
+
+
 def classify(kind, cat, answer):
     """None = fine; else a description of the failure."""
     if answer == "SKIPPED":
@@ -206,6 +226,18 @@ def run(ctx):
             if why:
                 failures.append((flavour, kind, cat, opt, data, why))
         ctx.log("sweep %s: %d inputs, %d failures so far" % (flavour, len(lines), len(failures)))
+    # ---- 3. every token-boundary prefix, with the optional look-ahead scans enabled
+    pf = prefix_family(ctx)
+    for opt in ("2,1,0,2," + "1" + "d" * 30, "3,1,0,2," + "1" * 31):
+        lines = ["%s a %s" % (opt, (d or b" ").hex()) for d in pf]
+        answers = stages.run_harness(ctx, "tree", lines, flavour="asan", per_case_s=30, max_failures=10)
+        total += sum(1 for a in answers if a != "SKIPPED")
+        for d, a in zip(pf, answers):
+            why = classify("token-prefix", "a", a)
+            if why:
+                failures.append(("asan", "token-prefix", "a", opt, d, why))
+    kinds_count["token-prefix"] = 2 * len(pf)
+    ctx.log("token-prefix family: %d prefixes x 2 option sets, %d failures so far" % (len(pf), len(failures)))
     seen = set()
     for flavour, kind, cat, opt, data, why in failures:
         sig = re.sub(r"0x[0-9a-f]+|==\d+==|pc \S+|bp \S+|sp \S+", "", why)[:120]
@@ -220,7 +252,7 @@ def run(ctx):
     ctx.cov.update({
         "evaluations": len(pc) + total, "distinct_nontrivial": len({(t, tuple(o)) for t, o in pc}) + total,
         "traces_validated_against_impl": len(pc), "exhaustive": False,
-        "rule": "protocol: all sequences of 1..3 cursor operations over 9 operations on 12 token strings + seeded random sequences on ~70 more (real Parser vs Lean model, %d traces); robustness: %s inputs (an eighth with directive / expansion-marker lines inserted, a third of them with an ambiguous statement planted after a random brace so that the disambiguation pass walks the tree; valid, truncated at random offsets, token-mutated, byte-mutated, unterminated literal/comment/directive tails, invalid UTF-8 incl. truncated sequences at the end, nesting within the declared limits, token soup) x random ParseOptions (dialect, 31 switches, comment mode, disambiguation mode, keyword recognition) x syntax category x builds %s, each parsed, fully traversed and asked first/last token of every node; non-trivial = every robustness input counts (distinct random data)"
+        "rule": "protocol: all sequences of 1..3 cursor operations over 9 operations on 12 token strings + seeded random sequences on ~70 more (real Parser vs Lean model, %d traces); robustness: %s inputs (an eighth with directive / expansion-marker lines inserted, a third of them with an ambiguous statement planted after a random brace so that the disambiguation pass walks the tree; valid, truncated at random offsets, token-mutated, byte-mutated, unterminated literal/comment/directive tails, invalid UTF-8 incl. truncated sequences at the end, nesting within the declared limits, token soup; plus EVERY token-boundary prefix of a few programs with K&R definitions and all extensions switched on, under ASan) x random ParseOptions (dialect, 31 switches, comment mode, disambiguation mode, keyword recognition) x syntax category x builds %s (the ASan builds with -D_GLIBCXX_ASSERTIONS: container accesses checked against size(), not capacity), each parsed, fully traversed and asked first/last token of every node; non-trivial = every robustness input counts (distinct random data)"
                 % (len(pc), total, [f for f, _ in plan]),
         "samples": [plines[5], str(metas[0][3][:120]), str(metas[-1][3][:120])],
     })
